@@ -1,6 +1,7 @@
 package main
 
 import (
+	"path/filepath"
 	"crypto/sha256"
 	"encoding/hex"
 	"encoding/json"
@@ -156,7 +157,8 @@ func (a *agg) write(path string, src source) error {
 				"testing runner (-run, -count, t.Run, Cleanup, SkipNow)":           "real in runner lifetimes; SimT stub in scheduled (tasks) lifetimes",
 				"process start-up, environment capture, CI detection":              "real: every lifetime is a fresh OS process with a scrubbed environment",
 				"kernel file semantics": "real, below a private tmpfs root",
-				"os, sync, path/filepath, go/parser, io/ioutil as seen by package snaps": "shim: yield + log + fault, then the real call",
+				"os, sync, path/filepath, go/parser, io/ioutil as seen by the module's packages": "shim: yield + log + fault, then the real call (sync.Once rebuilt from the scheduler-aware mutex, sync.Map operations are yield points, RWMutex writer preference modelled by the scheduler)",
+				"storage between lifetimes": "real files on tmpfs; the driver injects torn tails, flipped bytes, half-written entries, lost terminators, emptied files, hand-made blank lines, symbolic links, deleted files",
 				"goroutine scheduling among simulated tests":                             "simulator, seeded",
 				"clock": "none exists in the library",
 			},
@@ -172,7 +174,7 @@ func (a *agg) write(path string, src source) error {
 	if err != nil {
 		return err
 	}
-	os.MkdirAll("/verif/evidence", 0o755)
+	os.MkdirAll(filepath.Dir(path), 0o755)
 	return os.WriteFile(path, b, 0o644)
 }
 
